@@ -3,6 +3,8 @@ import DVP.Lemmas.Split
 import DVP.Lemmas.Symplectic
 import DVP.Lemmas.QuadInv
 import Mathlib.Tactic.NormNum
+import Mathlib.Tactic.Linarith
+import Mathlib.Tactic.Ring
 import Mathlib.Algebra.Module.Prod
 import Mathlib.Algebra.Algebra.Bilinear
 import Mathlib.LinearAlgebra.Prod
@@ -115,5 +117,63 @@ example : dotB ((1, 0) + (1 : ℚ) • ∑ _j ∈ Finset.range 1, ((1/2 : ℚ)) 
 example : compose (Q := ℚ) (P := ℚ) (fun p => p) (fun q => -q) (-1/10) [(0, 1/2), (1, 0), (0, 1/2)]
     (compose (fun p => p) (fun q => -q) (1/10) [(0, 1/2), (1, 0), (0, 1/2)] (1, 1/3)) = (1, 1/3) := by
   simp [compose, stageMap, pairMask, sepF]; norm_num
+
+/-! ### no secular energy drift: the shipped kick-drift-kick scheme on the harmonic oscillator -/
+
+/-- the stages of the shipped `SymplecticEulerSolver` table (regenerated): kick 1/2, drift 1, kick 1/2 -/
+theorem symplectic_euler_table_is_kick_drift_kick :
+    (List.zip (split_SymplecticEulerSolver.drift.map (fun x => (x : ℚ) / 2 ^ split_SymplecticEulerSolver.K))
+      (split_SymplecticEulerSolver.kick.map (fun x => (x : ℚ) / 2 ^ split_SymplecticEulerSolver.K))) =
+      [((0 : ℚ), (1 / 2 : ℚ)), (1, 0), (0, 1 / 2)] := by
+  simp only [split_SymplecticEulerSolver, List.map_cons, List.map_nil, List.zip_cons_cons, List.zip_nil_right]
+  norm_num
+
+/-- one step of that scheme on `q' = p`, `p' = -q` -/
+def kdkStep (h : ℚ) (x : ℚ × ℚ) : ℚ × ℚ := compose (fun p => p) (fun q => -q) h [((0 : ℚ), (1 / 2 : ℚ)), (1, 0), (0, 1 / 2)] x
+
+/-- twice the modified energy `p²/2 + (1 - h²/4) q²/2` -/
+def modifiedEnergy (h : ℚ) (x : ℚ × ℚ) : ℚ := x.2 ^ 2 + (1 - h ^ 2 / 4) * x.1 ^ 2
+
+/-- twice the energy -/
+def energy (x : ℚ × ℚ) : ℚ := x.2 ^ 2 + x.1 ^ 2
+
+/-- **The modified energy is an exact invariant of the step**, for every state and every step size -/
+theorem kdk_modified_energy_invariant (h : ℚ) (x : ℚ × ℚ) : modifiedEnergy h (kdkStep h x) = modifiedEnergy h x := by
+  obtain ⟨q, p⟩ := x
+  simp only [kdkStep, compose, List.foldl_cons, List.foldl_nil, stageMap, pairMask, sepF, modifiedEnergy,
+    Prod.smul_mk, Prod.mk_add_mk, smul_eq_mul]
+  ring
+
+theorem kdk_iterate_invariant (h : ℚ) (x : ℚ × ℚ) : ∀ n : Nat, modifiedEnergy h ((kdkStep h)^[n] x) = modifiedEnergy h x
+  | 0 => rfl
+  | n + 1 => by rw [Function.iterate_succ_apply', kdk_modified_energy_invariant, kdk_iterate_invariant h x n]
+
+/-- **Consequently the energy error stays bounded without secular drift**: with a step `|h| < 2`, after ANY number of steps of the
+shipped kick-drift-kick scheme on the harmonic oscillator the energy is at most `E₀ / (1 - h²/4)` (and at least `(1 - h²/4) E₀`):
+the error is `O(h²) E₀` uniformly in the number of steps. -/
+theorem kdk_energy_bounded_for_all_times (h : ℚ) (hh : h ^ 2 < 4) (x : ℚ × ℚ) (n : Nat) :
+    energy ((kdkStep h)^[n] x) ≤ energy x / (1 - h ^ 2 / 4) ∧ (1 - h ^ 2 / 4) * energy x ≤ energy ((kdkStep h)^[n] x) := by
+  have hc : 0 < 1 - h ^ 2 / 4 := by linarith
+  have hc1 : 1 - h ^ 2 / 4 ≤ 1 := by nlinarith [sq_nonneg h]
+  have hinv := kdk_iterate_invariant h x n
+  set y := (kdkStep h)^[n] x
+  have hq0 : 0 ≤ x.1 ^ 2 := sq_nonneg _
+  have hp0 : 0 ≤ x.2 ^ 2 := sq_nonneg _
+  have hq1 : 0 ≤ y.1 ^ 2 := sq_nonneg _
+  have hp1 : 0 ≤ y.2 ^ 2 := sq_nonneg _
+  simp only [modifiedEnergy] at hinv
+  constructor
+  · rw [le_div_iff₀ hc]
+    simp only [energy]
+    nlinarith
+  · simp only [energy]
+    nlinarith
+
+/-- the coded step of the shipped table IS that map: `y + dState = kdkStep h y` -/
+theorem coded_symplectic_euler_step_is_kdk (t h : ℚ) (y : ℚ × ℚ) :
+    y + (splitStep (modOps (V := ℚ × ℚ)) (sepF (fun p => p) (fun q => -q)) pairMask t y h
+      (split_SymplecticEulerSolver.drift.map (fun x => (x : ℚ) / 2 ^ split_SymplecticEulerSolver.K))
+      (split_SymplecticEulerSolver.kick.map (fun x => (x : ℚ) / 2 ^ split_SymplecticEulerSolver.K))).1 = kdkStep h y := by
+  rw [splitStep_eq_compose, symplectic_euler_table_is_kick_drift_kick]; rfl
 
 end DVP.C10
